@@ -22,6 +22,7 @@ from sim.props.ahbcommon import (
     gen_expression_pool,
     gen_validation_ahb,
     gen_world,
+    second_validation,
     shrink_validation,
 )
 from sim.props.common import LIVENESS_ERRORS, base_verdict, clone, fail, liveness_verdict, strip_msg
@@ -69,8 +70,9 @@ def with_kann(ahb, planted):
     return replaced
 
 
-def _alone(scenario, ahb):
-    request = dict(scenario["requests"][0])
+def _alone(scenario, ahb, rid="r0"):
+    request = dict(next(r for r in scenario["requests"] if r["rid"] == rid))
+    request.pop("start", None)
     request["op"] = dict(request["op"], ahb=ahb)
     solo = dict(scenario, profile="zero", decisions={}, decisions_closed=False, requests=[request])
     solo.pop("_with_log", None)
@@ -124,7 +126,10 @@ def generate(seed, tier="quick"):
         "cer": cer,
         "op": {"entry": "deep", "ahb": ahb, "soll": rnd.random() < 0.7, "planted": planted},
     }
-    return {"property": PROP_ID, "seed": seed, "profile": profile, "world": world, "requests": [request]}
+    requests = [request]
+    if rnd.random() < 0.2:
+        requests.append(second_validation(rnd, request))
+    return {"property": PROP_ID, "seed": seed, "profile": profile, "world": world, "requests": requests}
 
 
 def summarise(scenario):
@@ -143,6 +148,26 @@ size = ahb_size
 
 
 def shrink(scenario):
+    if len(scenario["requests"]) > 1:
+        for index in range(len(scenario["requests"])):
+            candidate = clone(scenario)
+            del candidate["requests"][index]
+            yield candidate
+        for index, request in enumerate(scenario["requests"]):
+            if request.get("start"):
+                candidate = clone(scenario)
+                candidate["requests"][index]["start"] = 0
+                yield candidate
+        for candidate in shrink(dict(scenario, requests=[scenario["requests"][0]])):
+            first = candidate["requests"][0]
+            others = []
+            for other in scenario["requests"][1:]:
+                other = clone(other)
+                other["op"]["ahb"] = clone(first["op"]["ahb"])
+                other["op"]["planted"] = clone(first["op"]["planted"])
+                others.append(other)
+            yield dict(candidate, requests=[first] + others)
+        return
     op = scenario["requests"][0]["op"]
     planted = op["planted"]
     if len(planted) > 1:
@@ -181,21 +206,38 @@ def shrink(scenario):
 
 # ------------------------------------------------------------------------------------------------------ oracle
 def execute(scenario):
-    request = scenario["requests"][0]
-    op = request["op"]
-    planted = op["planted"]
-    reference = pristine(_alone, scenario, with_kann(op["ahb"], planted))
-    reasons = pristine(evaluate_expressions_alone, scenario, [p["expr"] for p in planted])
+    references, reasons = {}, {}
+    for request in scenario["requests"]:
+        op = request["op"]
+        references[request["rid"]] = pristine(_alone, scenario, with_kann(op["ahb"], op["planted"]), request["rid"])
+        reasons[request["rid"]] = pristine(
+            evaluate_expressions_alone, scenario, [p["expr"] for p in op["planted"]], request["rid"]
+        )
     try:
         sim, outcomes = run_requests(scenario, do_op)
     except LIVENESS_ERRORS as error:
         return liveness_verdict(error, scenario)
     verdict = base_verdict(sim, scenario)
-    outcome = strip_msg(outcomes.get("r0", {"missing": True}))
-    verdict["observed"], verdict["completed"] = 1, 1 if "ok" in outcome else 0
+    verdict["observed"] = len(scenario["requests"])
+    verdict["completed"] = sum(1 for o in outcomes.values() if "ok" in o)
+    verdict["nontrivial"] = False
+    verdict["probes"]["validations"] = len(scenario["requests"])
+    for request in scenario["requests"]:
+        rid = request["rid"]
+        _judge(request, strip_msg(outcomes.get(rid, {"missing": True})), references[rid], reasons[rid], verdict)
+    return verdict
+
+
+def _bump(verdict, name, count=1):
+    verdict["probes"][name] = verdict["probes"].get(name, 0) + count
+
+
+def _judge(request, outcome, reference, reasons, verdict):
+    op = request["op"]
+    planted = op["planted"]
     kinds = {n["d"]: n["t"] for n, _ in walk(op["ahb"])}
     families = sorted({p["family"] for p in planted})
-    verdict["probes"][f"planted_{len(planted)}"] = 1
+    _bump(verdict, f"planted_{len(planted)}")
     # the planted expressions are invalid by construction (structural criterion, sim/gen_expr.gen_invalid); the
     # reason text is what the real evaluation of the expression alone reports - if that evaluation does not even
     # notice the invalidity, only "optional with a non-empty hint" can be demanded of the node
@@ -207,23 +249,24 @@ def execute(scenario):
         if outcome.get("exc") != reference.get("exc"):
             fail(verdict, "outcome-differs-from-kann-replacement",
                  f"planted {planted}: outcome {dumps(outcome)[:400]}, with 'Kann' instead: {dumps(reference)[:400]}")
-        verdict["nontrivial"] = False
-        return verdict
+        return
     if "ok" not in outcome:
-        return fail(
+        fail(
             verdict,
             f"validation-aborted:{kinds[planted[0]['at'][0]]}",
             f"planted {planted} (families {families}): validation ended with {dumps(outcome)[:300]} although the AHB "
             f"with 'Kann' instead validates fine",
         )
+        return
     got, expected = outcome["ok"], reference["ok"]
     if [i["discriminator"] for i in got] != [i["discriminator"] for i in expected]:
-        return fail(
+        fail(
             verdict,
             "reported-nodes-differ-from-kann-replacement",
             f"planted {planted}: reported {[i['discriminator'] for i in got]}, with 'Kann' instead "
             f"{[i['discriminator'] for i in expected]}",
         )
+        return
     planted_nodes = {p["at"][0]: p for p in planted if p["at"][1] is None}
     planted_entries = {p["at"][0] for p in planted if p["at"][1] is not None}
     reached = 0
@@ -256,15 +299,13 @@ def execute(scenario):
                 f"planted {planted}: node {discriminator} is {dumps(result)[:500]}, with 'Kann' instead it is "
                 f"{dumps(reference_item['validation_result'])[:500]}",
             )
-    verdict["probes"]["planted_reached"] = reached
-    verdict["probes"]["planted_pruned"] = len(planted) - reached
-    verdict["nontrivial"] = reached > 0
+    _bump(verdict, "planted_reached", reached)
+    _bump(verdict, "planted_pruned", len(planted) - reached)
+    verdict["nontrivial"] = verdict["nontrivial"] or reached > 0
     for plant in planted:
         kind = kinds[plant["at"][0]] + ("-entry" if plant["at"][1] is not None else "")
-        verdict["probes"][f"position_{kind}"] = verdict["probes"].get(f"position_{kind}", 0) + 1
-        fam = plant["family"].split("+")[0]
-        verdict["probes"][f"family_{fam}"] = verdict["probes"].get(f"family_{fam}", 0) + 1
+        _bump(verdict, f"position_{kind}")
+        _bump(verdict, f"family_{plant['family'].split('+')[0]}")
         if "+" in plant["family"]:
-            verdict["probes"]["family_multi_part"] = verdict["probes"].get("family_multi_part", 0) + 1
-    verdict["faults"]["F5_invalid_expression"] = reached
-    return verdict
+            _bump(verdict, "family_multi_part")
+    verdict["faults"]["F5_invalid_expression"] = verdict["faults"].get("F5_invalid_expression", 0) + reached
